@@ -33,6 +33,9 @@ type Engine struct {
 	solverBin     []string
 	solverFresh   bool
 	solverInt     bool
+	solver2Bin    []string
+	Solver2Checks int
+	Solver2Time   time.Duration
 	stopOnViol    int
 	maxSamples    int
 	doneSeen      int
@@ -95,6 +98,7 @@ type PathSample struct {
 type Worker struct {
 	eng         *Engine
 	sol         *Solver
+	sol2        *Solver // second solver (thorough tier): every unsat of an assertion query is re-asked
 	solverFresh bool
 }
 
@@ -222,7 +226,17 @@ func (e *Engine) explore(harness *ssa.Function, workers int) *RunResult {
 		}
 		sol.Fresh = e.solverFresh
 		sol.IntMode = e.solverInt
-		w := &Worker{eng: e, sol: sol}
+		var sol2 *Solver
+		if e.solver2Bin != nil {
+			sol2, err = newSolver(e.solver2Bin)
+			if err != nil {
+				fmt.Fprintln(os.Stderr, "cannot start second solver:", err)
+				os.Exit(2)
+			}
+			sol2.Fresh = true
+			sol2.IntMode = e.solverInt
+		}
+		w := &Worker{eng: e, sol: sol, sol2: sol2}
 		wg.Add(1)
 		go func() {
 			defer wg.Done()
@@ -232,6 +246,12 @@ func (e *Engine) explore(harness *ssa.Function, workers int) *RunResult {
 			e.res.Queries += w.sol.Queries
 			e.res.SolverTime += w.sol.Time
 			e.res.SolverErrs = append(e.res.SolverErrs, w.sol.Errors...)
+			if w.sol2 != nil {
+				e.Solver2Checks += w.sol2.Queries
+				e.Solver2Time += w.sol2.Time
+				e.res.SolverErrs = append(e.res.SolverErrs, w.sol2.Errors...)
+				w.sol2.Close()
+			}
 			e.mu.Unlock()
 		}()
 	}
